@@ -48,7 +48,21 @@ def fmt_info(fmt):
         return 1, False, False
     if fmt == "x":
         return 8, True, True
-    return struct.calcsize(fmt), fmt.islower(), False
+    return struct.calcsize(fmt), fmt[-1].islower(), False
+
+
+def big_endian(fmt):
+    """is the variable stored most significant byte first?"""
+    return isinstance(fmt, str) and fmt[0] in ">!"
+
+
+def to_raw(fmt, size, pattern):
+    """logical bit pattern of a variable <-> the little-endian integer its
+    bytes form in memory (an involution)"""
+    if big_endian(fmt):
+        return int.from_bytes((pattern & ((1 << (8 * size)) - 1)).to_bytes(
+            size, "big"), "little")
+    return pattern
 
 
 class Spec:
@@ -160,8 +174,8 @@ def build(specd, extra_ns=None, base=XDP, prologue=None):
                     b.stmt_outs.append((p, place, name))
             elif s[0] == "if":
                 for tag in ("T", "E", "A"):
-                    if tag == "E" and s[3] is None:
-                        continue
+                    if tag == "E" and not s[3]:
+                        continue     # no Else, or an Else that emits nothing
                     name = f"mk{counter[0]}{tag}"
                     counter[0] += 1
                     ns[name] = m.globalVar("B")
@@ -277,6 +291,12 @@ def build(specd, extra_ns=None, base=XDP, prologue=None):
                     with c:
                         setattr(e, marks[p, "T"], 1)
                         emit(s[2], p + ("T",))
+                elif s[3] == []:
+                    with c as Else:
+                        setattr(e, marks[p, "T"], 1)
+                        emit(s[2], p + ("T",))
+                    with Else:
+                        pass          # an Else block without any code
                 else:
                     with c as Else:
                         setattr(e, marks[p, "T"], 1)
